@@ -748,6 +748,11 @@ func doReplay(path string) int {
 		tier = rf.Tier
 	}
 	r := runTape(rf.Tape, spec.WatchdogMs("thorough"))
+	for attempt := 0; r.Class == "" && rf.Violation.Class == "data-race" && attempt < 4; attempt++ {
+		// (the race detector can miss a race it has reported before: bounded,
+		// randomly evicted access history - see DESIGN.md 3.6)
+		r = runTape(rf.Tape, spec.WatchdogMs("thorough"))
+	}
 	if r.Class == "" {
 		fmt.Printf("replay of %s: no violation (property holds on this tape with the current tree)\n", path)
 		return 0
@@ -923,7 +928,35 @@ func main() {
 		if !ok {
 			res = runTape(v.Tape, spec.WatchdogMs("thorough"))
 			min, locator = v.Tape, v.Locator
-			if f, ok = pick(res, v.Class, locator); !ok {
+			f, ok = pick(res, v.Class, locator)
+			// A race report is never a false positive, but the detector can MISS a
+			// race it reported before (bounded, randomly evicted access history):
+			// a few more fresh processes before calling the replay a failure.
+			for attempt := 0; !ok && v.Class == "data-race" && attempt < 2; attempt++ {
+				res = runTape(v.Tape, spec.WatchdogMs("thorough"))
+				f, ok = pick(res, v.Class, locator)
+			}
+			// ... and then other runs of the same group: whether the detector sees
+			// a given race also depends on happens-before edges that the library's
+			// own atomics create, which vary with what the process did before.
+			for i := 1; !ok && v.Class == "data-race" && i < len(vs) && i < 8; i++ {
+				if len(vs[i].Tape) == 0 {
+					continue
+				}
+				res = runTape(vs[i].Tape, spec.WatchdogMs("thorough"))
+				if f, ok = pick(res, v.Class, locator); ok {
+					v, min = vs[i], vs[i].Tape
+				}
+			}
+			if !ok && v.Class == "data-race" {
+				// A race report is a true positive, but a replay file that does
+				// not show it is not evidence anyone can check: counted, not
+				// reported.
+				fmt.Printf("note: race report of run %d (%s) did not reproduce in fresh processes (nor did %d other runs reporting it); not counted as a violation\n", v.Run, v.Locator, len(vs)-1)
+				agg.ctr["race_reports_not_reproduced"] += int64(len(vs))
+				continue
+			}
+			if !ok {
 				if v.Class == "livelock" {
 					// A watchdog expiry that a fresh, unloaded process does not
 					// reproduce was the machine, not the library (e.g. sixteen
